@@ -821,6 +821,14 @@ fn write_evidence(d: &Driver, path: &Path, violations: i64, replays: &[Value], k
         "simplify::cut_tile",
         "simplify::squeeze_tile_3d",
         "simplify::collapse::empty",
+        "derived::canonical",
+        "derived::minimal_image",
+        "derived::cover",
+        "fpgroups::stabilizer",
+        "fpgroups::abelian_invariants",
+        "fpgroups::coset_tables",
+        "delaney2d::orbifold_symbol",
+        "fundamental_group",
     ];
     let probes_at_zero: Vec<&str> = if hooks_compiled() { probes_expected.iter().cloned().filter(|p| !a.probes.contains_key(*p)).collect() } else { vec![] };
     let table: std::collections::BTreeSet<String> = std::fs::read_to_string(format!("{}/src/data/euclideanInvariants.data", repo_path()))
